@@ -341,6 +341,9 @@ for case in job['cases']:
     roots = {}
     if cls is not None and not is_static:
         roots['self'] = object.__new__(cls) if not job.get('plain_self') else types.SimpleNamespace()
+        if job.get('shadow') and not job.get('plain_self'):
+            # read-only properties named in `shadow` become plain attributes of a throw-away subclass
+            roots['self'] = object.__new__(type(cls.__name__, (cls,), {k: None for k in job['shadow']}))
     args = {}
     for inp, v in zip(man['inputs'], case):
         parts = inp['path'].split('.')
@@ -428,7 +431,7 @@ def coq_arg(kind, v):
     raise ValueError(kind)
 
 
-def kernel_correspondence(man, cases, tol=None, scalars=(), arrays=(), plain_self=False, chunk=400):
+def kernel_correspondence(man, cases, tol=None, scalars=(), arrays=(), plain_self=False, chunk=400, shadow=(), pyres=None):
     """cases: list of input tuples (num as float, list as [float]...).  Runs the real Python
     function and k_<name> FOps on each and compares inside Coq.
     Returns dict(n=..., mismatches=[{case, python, ...}], errors=...)."""
@@ -446,8 +449,9 @@ def kernel_correspondence(man, cases, tol=None, scalars=(), arrays=(), plain_sel
             else:
                 ec.append(v)
         enc_cases.append(ec)
-    job = {'manifest': man, 'cases': enc_cases, 'scalars': list(scalars), 'arrays': list(arrays), 'plain_self': plain_self}
-    pyres = run_python(KERNEL_RUNNER, job)
+    job = {'manifest': man, 'cases': enc_cases, 'scalars': list(scalars), 'arrays': list(arrays), 'plain_self': plain_self, 'shadow': list(shadow)}
+    if pyres is None:
+        pyres = run_python(KERNEL_RUNNER, job)
     tol_s = 'same' if tol is None else f'(close {fhex(tol)})'
     outs = man['outputs']
     bodies = []
